@@ -356,7 +356,11 @@ class TypeChecker:
 
             # Type must be simple, or a pointer at this point!
             val_typ = self.context.get_type(expr.typ)
-            assert isinstance(val_typ, (ast.PointerType, ast.BaseType))
+            if not isinstance(val_typ, (ast.PointerType, ast.BaseType)):
+                raise SemanticError(
+                    f"Cannot use the value of complex type {val_typ}",
+                    expr.loc,
+                )
 
             # This expression is no longer an lvalue
             expr.lvalue = False
